@@ -16,7 +16,8 @@ def deep_search(work, res, tier, proofs_ok):
                     spec_only=True).run(proofs_ok=True)
 
 
-CHECK = generic("C05", [dict(harness="heap", area="heap"), dict(harness="skiplist", area="skiplist")], extra=deep_search)
+CHECK = generic("C05", [dict(harness="heap", area="heap"), dict(harness="skiplist", area="skiplist"),
+                        dict(harness="heap", area="pqptr", name="heap-pqptr")], extra=deep_search, pregen=steps.pregen_pqgo)
 
 MANIFEST = dict(
     text=("Theorems in Lean 4 (Ekit/Props/C05.lean) for ANY comparator that is a total preorder (ties allowed). "
